@@ -23,7 +23,7 @@ META = {
     ),
     "floors": {
         "quick": {"evaluations": 20000, "mon.wellformed": 600, "mon.colors": 300, "mon.nested_colors": 40, "mon.labels": 250, "mon.wrap": 15000, "mon.escape": 300},
-        "thorough": {"evaluations": 150000, "mon.wellformed": 20000, "mon.colors": 10000, "mon.nested_colors": 2000, "mon.labels": 8000, "mon.wrap": 120000, "mon.escape": 8000},
+        "thorough": {"evaluations": 120000, "mon.wellformed": 20000, "mon.colors": 10000, "mon.nested_colors": 2000, "mon.labels": 8000, "mon.wrap": 120000, "mon.escape": 8000},
     },
     "exhaustive": {"quick": True, "thorough": True},
     "space": {"quick": "wrapper: all word lists over a 6-word alphabet up to 4 words x widths 1-13; drawings: 600+ random scenes", "thorough": "wrapper: all word lists over a 6-word alphabet up to 5 words x widths 1-13 (121k); drawings: 20k random scenes"},
